@@ -149,7 +149,16 @@ class FlowGen(object):
             ts = [Target() for _ in range(k)]
             end = Target()
             gosub = r.random() < 0.4
-            sel = ("var", r.choice(VARS))
+            sv = r.choice(VARS)
+            sel = ("var", sv)
+            pre = []
+            y = r.random()
+            if y < 0.35:
+                # selector through a run-translated function, and the statement directly before it changes its operand
+                sel = ("fn", "INT", [("bin", "/", ("bin", "*", ("var", sv), n(2)), n(2))])
+                pre = [("let", ("var", sv), ("bin", "+", ("var", sv), n(1)), False)]
+            elif y < 0.5:
+                sel = ("bin", "+", ("fn", "INT", [("var", sv)]), n(0))
             if gosub:
                 for t in ts:
                     body = []
@@ -158,9 +167,9 @@ class FlowGen(object):
                     self.items = body
                     self.line([self.mark(), ("return",)])
                     self.items = saved
-                self.line([("on", sel, "GOSUB", ts), self.mark()])
+                self.line(pre + [("on", sel, "GOSUB", ts), self.mark()])
             else:
-                self.line([("on", sel, "GOTO", ts), self.mark(), ("goto", end)])
+                self.line(pre + [("on", sel, "GOTO", ts), self.mark(), ("goto", end)])
                 for t in ts:
                     self.items.append(("label", t))
                     self.line([self.mark(), ("goto", end)])
